@@ -11,6 +11,10 @@ type Iterator struct {
 	inner     skiplist.Iterator
 	didSeek   bool
 	seekWasOK bool
+
+	// A Seek beyond the last key leaves the inner iterator on the list's
+	// header, from where inner.Next() would start all over with the first key:
+	seekedPastEnd bool
 }
 
 func New(inner skiplist.Iterator) *Iterator {
@@ -23,6 +27,8 @@ func (iter *Iterator) Next() (ok bool) {
 	if iter.didSeek {
 		iter.didSeek = false
 		return iter.seekWasOK
+	} else if iter.seekedPastEnd {
+		return false
 	} else {
 		return iter.inner.Next()
 	}
@@ -56,6 +62,7 @@ func (iter *Iterator) Seek(key interface{}) (ok bool) {
 	iter.didSeek = true
 	ok = iter.inner.Seek(key)
 	iter.seekWasOK = ok
+	iter.seekedPastEnd = !ok
 	return ok
 }
 
